@@ -54,7 +54,7 @@ func (u *Unit) checkFrame(ct *Contract, r retInfo, alloc0 Term, penv *Env) {
 		for _, h := range u.resolveFrameItem(ct, f) {
 			allowed[h] = true
 		}
-		if strings.HasPrefix(f, "*") || strings.HasPrefix(f, "@") {
+		if (strings.HasPrefix(f, "*") && !strings.HasPrefix(f, "*.")) || strings.HasPrefix(f, "@") {
 			return // frames naming pointees of parameters are not checked yet (reported as assumed)
 		}
 	}
